@@ -513,3 +513,35 @@ def run_verus_ob(build, ob):
             res["status"], res["reason"] = "undecided", "vacuous: nothing verified"
             res["output_tail"] = out[-3000:]
     return res
+
+
+def run_native_ob(build, ob):
+    """exhaustive-eval back end: a native #[test] in the harness module that enumerates a finite
+    instance set completely on the real functions (no solver)."""
+    env = build.env()
+    env["RUSTFLAGS"] = "--cfg owlchess_verif_replay -Awarnings"
+    env["CARGO_TARGET_DIR"] = os.path.join(build.dir, "target-replay")
+    cmd = ["cargo", "test", "--offline", "--release", "-p", ob["pkg"], "--lib", "--", "--exact", ob["test"], "--nocapture",
+           "--test-threads=1"]
+    lockp = os.path.join(build.dir, "native.lock")
+    with open(lockp, "w") as lf:
+        fcntl.flock(lf, fcntl.LOCK_EX)   # one native cargo at a time (shared target dir)
+        rc, out, dt, to = run_cmd(cmd, build.repo, env, ob.get("timeout", 900))
+    res = {"id": ob["id"], "backend": "exhaustive-eval", "seconds": round(dt, 1), "cmd": " ".join(cmd), "failed": [], "checks": 0}
+    m = re.search(r"EVALUATIONS: (\d+)", out)
+    if m:
+        res["checks"] = int(m.group(1))
+        res["evaluations"] = int(m.group(1))
+    if to:
+        res["status"], res["reason"] = "undecided", "timeout"
+    elif re.search(r"test result: ok\. 1 passed", out) and res["checks"] > 0:
+        res["status"] = "discharged"
+    elif re.search(r"test result: FAILED", out) and "panicked" in out:
+        res["status"] = "failed"
+        pm = re.search(r"panicked at ([^\n]*)\n([^\n]*)", out)
+        res["failed"] = [{"check": ob["test"], "description": (pm.group(2) if pm else "panic"), "location": pm.group(1) if pm else ""}]
+        res["output_tail"] = out[-4000:]
+    else:
+        res["status"], res["reason"] = "undecided", "native test did not run (build error or anchor lost)"
+        res["output_tail"] = out[-4000:]
+    return res
